@@ -98,11 +98,57 @@ def run(R: vlib.Run):
     from sigpyproc.timeseries import TimeSeries
     import bottleneck as bn
 
+    # (a) every API of the property is a query: whatever array it is given must be bit-identical afterwards.  The sweeps below
+    # go through these guards (which also restore the array, so that each sweep case stays a statement about ONE call);
+    # the histories of section 6 use the raw modules, so that a modification persists and shows in the later results.
+    stats_raw, kernels_raw = stats, kernels
+
+    def same_bits(a, b):
+        return a.dtype == b.dtype and a.shape == b.shape and a.tobytes() == b.tobytes()
+
+    def report_mutation(api, before, after, how):
+        R.fail(f"input-mutated-{api}", f"{api} modified the array it was given (a filter / decimator must leave its input bit-identical)",
+               {"api": api, "call": how, "dtype": str(before.dtype), "shape": list(before.shape),
+                "input_before": L(before)[:400], "input_after": L(after)[:400]})
+
+    class Guard:
+        def __init__(self, mod, prefix):
+            self._mod, self._prefix = mod, prefix
+
+        def __getattr__(self, name):
+            fn = getattr(self._mod, name)
+            api = f"{self._prefix}{name}"
+
+            def g(*args, **kw):
+                arrs = [a for a in args if isinstance(a, np.ndarray)]
+                before = [a.copy() for a in arrs]
+                try:
+                    return fn(*args, **kw)
+                finally:
+                    for a, b in zip(arrs, before):
+                        if not same_bits(a, b):
+                            report_mutation(api, b, a.copy(), f"{api}(" + ", ".join(repr(x) for x in args if not isinstance(x, np.ndarray)) + ")")
+                            a[...] = b
+            return g
+
+    stats, kernels = Guard(stats_raw, ""), Guard(kernels_raw, "kernels.")
+
+    def guarded_method(api, obj, how, call):
+        """call() uses obj (TimeSeries / FilterbankBlock): obj.data must be bit-identical afterwards"""
+        before = obj.data.copy()
+        try:
+            return call()
+        finally:
+            if not same_bits(obj.data, before):
+                report_mutation(api, before, obj.data.copy(), how)
+                obj.data[...] = before
+
     quick = R.tier == "quick"
     R.rule = ("running filter: every length 1..N x every width 1..3n+1 x {mean, median} x {float32, float64, uint8} (exhaustive over "
               "the shape lattice, integer-valued random content so that the definition is exact); decimators: every length 1..N x "
               "every factor 1..n, every shape up to D x D x every factor pair, both methods, three dtypes, 1-D / 2-D / flat / kernels / "
-              "parallel kernels; detrend: lengths 1..N, three dtypes, plus lengths around 2^16 and beyond the int64 limit of the closed "
+              "parallel kernels; every call is followed by a bit-identity check of the array it was given; histories of 2-5 calls on ONE "
+              "array / TimeSeries / block (all ordered pairs for n = 5, 8, 13, then random) are compared with the definition on the original data; detrend: lengths 1..N, three dtypes, plus lengths around 2^16 and beyond the int64 limit of the closed "
               "form; TimeSeries.deredden/downsample and FilterbankBlock.downsample on non-square shapes.  A case is non-trivial if "
               "the input has >= 2 samples; distinct = distinct (function, shape, parameters, dtype, method)")
     R.trusted += [
@@ -399,7 +445,7 @@ def run(R: vlib.Run):
                 R.case(("dered", n, w, method), nontrivial=n >= 2, regime="deredden")
                 exp = x.astype(np.float64) - spec_running(x, w, method)
                 try:
-                    out = ts.deredden(method, window=w * tsamp).data
+                    out = guarded_method("TimeSeries.deredden", ts, f"deredden({method!r}, window={w} bins)", lambda: ts.deredden(method, window=w * tsamp).data)
                     if not agrees(out, exp):
                         R.fail(f"deredden-{method}", "de-reddened series is not the input minus its running filter",
                                {"x": L(x), "window_bins": w, "method": method, "got": L(out), "expected": L(exp)})
@@ -409,7 +455,7 @@ def run(R: vlib.Run):
             for method in METHODS:
                 R.case(("tsds", n, f, method), nontrivial=n >= 2, regime="TimeSeries.downsample")
                 try:
-                    out = ts.downsample(f, method).data
+                    out = guarded_method("TimeSeries.downsample", ts, f"downsample({f}, {method!r})", lambda: ts.downsample(f, method).data)
                     if not agrees(out, spec_ds1(x, f, method)):
                         R.fail(f"timeseries-downsample-{method}", "TimeSeries.downsample is not the group aggregate",
                                {"x": L(x), "factor": f, "method": method, "got": L(out)})
@@ -425,7 +471,7 @@ def run(R: vlib.Run):
                 for method in METHODS:
                     R.case(("blk", nchans, nsamps, ff, tf, method), nontrivial=nchans * nsamps >= 2, regime="FilterbankBlock.downsample")
                     try:
-                        out = blk.downsample(ff, tf, method).data
+                        out = guarded_method("FilterbankBlock.downsample", blk, f"downsample({ff}, {tf}, {method!r})", lambda: blk.downsample(ff, tf, method).data)
                         if not agrees(out, spec_ds2(x, ff, tf, method)):
                             R.fail(f"block-downsample-{method}", "FilterbankBlock.downsample is not the aggregate over ffactor channels x tfactor samples",
                                    {"x": L(x), "shape": [nchans, nsamps], "ffactor": ff, "tfactor": tf, "method": method, "got": L(out), "got_shape": list(out.shape)})
@@ -435,9 +481,114 @@ def run(R: vlib.Run):
                     if nchans <= 4 and nsamps <= 7 and method == "mean" and (ff, tf) != (1, 1):
                         corr_ds.append(("blk", False, False, L(x.astype(np.int64)), [nchans, nsamps, ff, tf],
                                         [int(round(float(v) * ff * tf)) for v in np.asarray(out).ravel()]))
+    # ---- 6. histories on ONE object: every result must be the definition applied to the ORIGINAL data -------------------------
+    def step_1d(x, x0, op):
+        """run one operation on the (possibly already modified) array x; return (api, got, expected-from-x0, in dtype)"""
+        kind = op[0]
+        if kind == "ds1":
+            _, f, method = op
+            return "downsample_1d", stats_raw.downsample_1d(x, f, method), spec_ds1(x0, f, method), x0.dtype.type
+        if kind == "k1":
+            _, f = op
+            return "kernels.downsample_1d_mean", kernels_raw.downsample_1d_mean(x, f), spec_ds1(x0, f, "mean"), x0.dtype.type
+        if kind == "rf":
+            _, w, method = op
+            return "running_filter", stats_raw.running_filter(x, w, method), spec_running(x0, w, method), None
+        _, = op
+        out = kernels_raw.detrend_1d(x)
+        exp = np.array([float(v) for v in spec_detrend_exact(L(x0))])
+        return "detrend_1d", out, exp, None
+
+    def run_history(x, ops, regime):
+        x0 = x.copy()
+        done = []
+        for op in ops:
+            R.case(("hist", regime, x0.dtype.name, len(x0), tuple(done), op), regime=regime)
+            try:
+                api, got, exp, indt = step_1d(x, x0, op)
+            except Exception as e:  # noqa: BLE001
+                R.fail(f"history-{op[0]}", f"raised {type(e).__name__} after earlier calls on the same array: {e}",
+                       {"x": L(x0), "dtype": x0.dtype.name, "earlier_calls": done, "call": list(op)})
+                return
+            okv = agrees(got, exp, indt) if api != "detrend_1d" else (np.asarray(got).shape == exp.shape and bool(
+                np.allclose(np.asarray(got, dtype=np.float64), exp, rtol=0, atol=(2e-5 if np.asarray(got).dtype == np.float32 else 1e-9) * 256)))
+            if not okv:
+                R.fail(f"history-{api}", f"{api} on an array that earlier calls were applied to is not the definition on the original data",
+                       {"x": L(x0), "dtype": x0.dtype.name, "earlier_calls": [list(d) for d in done], "call": list(op),
+                        "got": L(got), "expected": L(exp), "array_now": L(x), "array_changed": not same_bits(x, x0)})
+                return
+            done.append(op)
+
+    for n in (5, 8, 13):
+        for dname, dt in DTYPES:
+            firsts = [("ds1", f, m) for f in range(1, n + 1) for m in METHODS] + [("rf", w, m) for w in (2, 3, n + 1) for m in METHODS]
+            seconds = [("ds1", f, m) for f in range(1, n + 1) for m in METHODS] + [("k1", n // 2 + 1), ("rf", 4, "median"), ("det",)]
+            for a in firsts:
+                for b in seconds:
+                    if a != b:
+                        run_history(rand_int_array((n,), dt, kind="uniform"), [a, b], "history/pairs")
+    for _ in range(60 if quick else 400):
+        dname, dt = rng.choice(DTYPES)
+        n = rng.randrange(2, NMAX + 1)
+        ops = []
+        for _k in range(rng.randrange(3, 6)):
+            c = rng.choice(["ds1", "ds1", "ds1", "k1", "rf", "det"])
+            ops.append({"ds1": ("ds1", rng.randrange(1, n + 1), rng.choice(METHODS)), "k1": ("k1", rng.randrange(1, n + 1)),
+                        "rf": ("rf", rng.randrange(1, 3 * n + 2), rng.choice(METHODS)), "det": ("det",)}[c])
+        run_history(rand_int_array((n,), dt, kind="uniform"), ops, "history/random")
+    # the same TimeSeries decimated / de-reddened several times
+    for _ in range(25 if quick else 120):
+        n = rng.randrange(2, NMAX + 1)
+        x0 = rand_int_array((n,), np.float32, kind="uniform")
+        ts = ts_of(x0.copy())
+        done = []
+        for _k in range(4):
+            if rng.random() < 0.7:
+                f, method = rng.randrange(1, n + 1), rng.choice(METHODS)
+                op, api = ["downsample", f, method], "TimeSeries.downsample"
+                got, exp = ts.downsample(f, method).data, spec_ds1(x0, f, method)
+            else:
+                w, method = rng.randrange(1, 2 * n + 2), rng.choice(METHODS)
+                op, api = ["deredden", w, method], "TimeSeries.deredden"
+                got, exp = ts.deredden(method, window=w * tsamp).data, x0.astype(np.float64) - spec_running(x0, w, method)
+            R.case(("hist-ts", n, tuple(map(tuple, done)), tuple(op)), regime="history/TimeSeries")
+            if not agrees(got, exp):
+                R.fail(f"history-{api}", f"{api} of a TimeSeries that was decimated / de-reddened before is not the definition on its original data",
+                       {"x": L(x0), "earlier_calls": done, "call": op, "got": L(got), "expected": L(exp), "data_now": L(ts.data),
+                        "data_changed": not same_bits(ts.data, x0)})
+                break
+            done.append(op)
+    # the same block / the same 2-D array decimated several times
+    for _ in range(20 if quick else 100):
+        d1, d2 = rng.randrange(1, 9), rng.randrange(2, 14)
+        dname, dt = rng.choice(DTYPES)
+        x0 = rand_int_array((d1, d2), dt, kind="uniform")
+        x = x0.copy()
+        xb = x0.astype(np.float32)
+        blk = FilterbankBlock(xb.copy(), Header(filename="c14.fil", data_type="filterbank", nchans=d1, foff=-1.0, fch1=1500.0, nbits=32,
+                                                tsamp=tsamp, tstart=60000.0, nsamples=d2))
+        done = []
+        for _k in range(4):
+            f1, f2, method = rng.randrange(1, d1 + 1), rng.randrange(1, d2 + 1), rng.choice(METHODS)
+            which = rng.choice(["downsample_2d", "downsample_2d_flat", "FilterbankBlock.downsample"])
+            exp = spec_ds2(x0, f1, f2, method)
+            if which == "downsample_2d":
+                got, okv = stats_raw.downsample_2d(x, (f1, f2), method), None
+            elif which == "downsample_2d_flat":
+                got, exp = stats_raw.downsample_2d_flat(x.reshape(-1), f1, f2, d1, d2, method), exp.ravel()
+            else:
+                got = blk.downsample(f1, f2, method).data
+            R.case(("hist-2d", d1, d2, dname, tuple(map(tuple, done)), which, f1, f2, method), regime="history/2-D")
+            if not agrees(got, exp, None if which == "FilterbankBlock.downsample" else dt):
+                R.fail(f"history-{which}", f"{which} on data that was decimated before is not the definition on the original data",
+                       {"x": L(x0), "shape": [d1, d2], "dtype": dname, "earlier_calls": done, "call": [which, f1, f2, method],
+                        "got": L(got), "expected": L(exp), "array_changed": not (same_bits(x, x0) and same_bits(blk.data, xb))})
+                break
+            done.append([which, f1, f2, method])
+
     R.extra_cov["assumption_checks_failed"] = assumption_bad
 
-    # ---- 6. correspondence: executable model under vm_compute versus the implementation ---------------------------------
+    # ---- 7. correspondence: executable model under vm_compute versus the implementation ---------------------------------
     if not proved and not R.need(["Model/C14_filters.vo", "Model/C14_pinned.vo"]):
         return R        # the models themselves no longer build (translator refused / Gen changed shape): reported above
     import gen_c14
